@@ -92,3 +92,44 @@ func VerifOpts[T TSTable, O any](db TSDB[T, O]) (si, ttl IntervalRule, shardNum 
 	o := d.segmentController.getOptions()
 	return o.SegmentInterval, o.TTL, o.ShardNum, d.disableRetention, d.disableRotation
 }
+
+type verifTbl struct{}
+
+func (verifTbl) Close() error                          { return nil }
+func (verifTbl) Collect(Metrics)                       {}
+func (verifTbl) TakeFileSnapshot(string) (bool, error) { return true, nil }
+
+// VerifRemoveSeg runs the real segmentController.removeSeg on a list holding the given (ascending) ids.
+func VerifRemoveSeg(ids []uint32, target uint32) []uint32 {
+	sc := &segmentController[verifTbl, struct{}]{}
+	for _, id := range ids {
+		sc.lst = append(sc.lst, &segment[verifTbl, struct{}]{id: segmentID(id)})
+	}
+	sc.removeSeg(segmentID(target))
+	out := make([]uint32, 0, len(sc.lst))
+	for _, s := range sc.lst {
+		out = append(out, uint32(s.id))
+	}
+	return out
+}
+
+// VerifEnsureShards gives every segment a shard-0 table, so that deleting the segment closes a table
+// (the seam through which the driver parks a physical delete).
+func VerifEnsureShards[T TSTable, O any](db TSDB[T, O]) error {
+	for _, s := range verifDB(db).segmentController.copySegments() {
+		if _, err := s.CreateTSTableIfNotExist(0); err != nil {
+			return err
+		}
+	}
+	return nil
+}
+
+// VerifControllerLocked reports whether some goroutine holds the controller's write lock.
+func VerifControllerLocked[T TSTable, O any](db TSDB[T, O]) bool {
+	sc := verifDB(db).segmentController
+	if sc.TryLock() {
+		sc.Unlock()
+		return false
+	}
+	return true
+}
